@@ -1,10 +1,22 @@
 import PyxModel.Sexp
+import PyxModel.Oal.LexGen
 
-/-! driver commands of property C08 (stub: no command yet) -/
+/-! driver commands of property C08
+
+    (c08-kinds "lexdata 1" "lexdata 2" ...)
+      -> for each text the list of (KIND "lexeme with keyword spellings lower-cased") of the lexer model,
+         i.e. the token stream modulo `normTok`
+-/
 namespace Pyx.Driver.C08
-open Pyx Pyx.Sexp
+open Pyx Pyx.Sexp Pyx.Oal
+
+def one (text : String) : Sexp :=
+  list ((lex text.toList).map fun t =>
+    let n := normTok Gen.OalLex.cfg t
+    list [sym (String.ofList n.kind), str (String.ofList n.lexeme)])
 
 def handle : List Sexp → Option Sexp
+  | sym "c08-kinds" :: texts => some (list (texts.filterMap fun | str s => some (one s) | _ => none))
   | _ => none
 
 end Pyx.Driver.C08
